@@ -68,7 +68,7 @@ def prefix(rng):
 def plant(rng, arch, b):
     """writes the faulty statement into builder b; returns (kind, phase, [acceptable (line, col)], trailer lines for the root file)"""
     ind, ops = prefix(rng)
-    kind = rng.choice(["directive", "char", "undef", "undef", "range", "range", "range_fwd", "range_fwd", "assert", "assert_fwd", "die", "dupconst", "duplabel", "instr_range", "instr_undef", "instr_fwd"])
+    kind = rng.choice(["directive", "char", "undef", "undef", "range", "range", "range_fwd", "range_fwd", "assert", "assert_fwd", "die", "die_expr", "dupconst", "duplabel", "instr_range", "instr_undef", "instr_fwd"])
     trailer = []
     sfx = rng.choice(["", " ", " ; c", "\t; " + rng.choice(NONASCII)])
     def stmt(head, tok, tail=""):
@@ -97,9 +97,14 @@ def plant(rng, arch, b):
         d, big = rng.choice([("@db ", 300), ("@dw ", 70000), ("@db ", -200)])
         if kind == "range":
             tok = str(big) if big >= 0 else "0 - 200"
+            if rng.random() < 0.35:
+                # an operand that starts with a parenthesis is located at the parenthesis
+                tok = rng.choice(["( %s )", "( %s + 0 )", "(%s)", "( ( %s ) )"]) % tok
         else:
             tok = "fwd%d" % rng.randrange(10**6)
             trailer.append("@defn %s, %d" % (tok, big) if big >= 0 else "@defn %s, 0 - 200" % tok)
+            if rng.random() < 0.35:
+                tok = rng.choice(["( %s )", "( %s + 0 )", "(%s)"]) % tok
         if d == "@dw " and '"' in ops:
             ops = "7, "
         p = stmt(d + ops, tok, rng.choice(["", " + 0", " * 1"]))
@@ -110,11 +115,11 @@ def plant(rng, arch, b):
         b.text += "@assert "
         p1 = b.mark()
         if kind == "assert":
-            b.text += rng.choice(["0", "1 == 2", "3 < 2"])
+            b.text += rng.choice(["0", "1 == 2", "3 < 2", "( 1 == 2 )", "( 0 ) & 1", "(3 < 2)"])
         else:
             tok = "fwd%d" % rng.randrange(10**6)
             trailer.append("@defn %s, 0" % tok)
-            b.text += tok
+            b.text += rng.choice(["%s", "%s", "( %s )", "( %s & 1 ) == 1"]) % tok
         b.text += rng.choice(["", ', "msg"']) + sfx + "\n"
         return kind, ("A" if kind == "assert" else "L"), [p0, p1], trailer
     if kind == "die":
@@ -124,6 +129,12 @@ def plant(rng, arch, b):
         p1 = b.mark()
         b.text += '"stop"' + sfx + "\n"
         return kind, "A", [p0, p1], trailer
+    if kind == "die_expr":
+        # @die with a number to print: the offending token is the directive
+        b.text += ind
+        p0 = b.mark()
+        b.text += "@die " + rng.choice(["42", "( 6 * 7 )", "dupc", "dupc + 1", "1, \\\n  2"][:4]) + sfx + "\n"
+        return kind, "A", [p0], trailer
     if kind == "dupconst":
         b.text += ind
         p0 = b.mark()
